@@ -77,6 +77,7 @@ def run(ctx):
     rnd = random.Random(ctx.seed * 3 + 13)
     quick = ctx.tier == "quick"
     texts = []
+    must_refuse = set()
     py_expected = {}
     # the real-chain transactions shipped with the repository
     d = os.path.join(REPO, "doc/txs")
@@ -125,6 +126,9 @@ def run(ctx):
                 m = bytearray(raw); m[pos] = v
                 texts.append(bytes(m).hex())
         texts.append(h + "00")
+        # the text is hex digits in pairs: a dangling digit behind a complete encoding is not part of any byte
+        for tail in ("0", "f", "7", "a0b", "0 ", " 0", "00 0", "g", "0g", "\t1"):
+            texts.append(h + tail); must_refuse.add(h + tail)
         texts.append(h + h[:8])
         texts.append(h[:-1])
         texts.append(" ".join(h[i:i + 2] for i in range(0, min(len(h), 200), 2)) + h[200:])
@@ -163,6 +167,9 @@ def run(ctx):
         if t in py_expected and i != py_expected[t]:
             ctx.violation(l, {"why": "decoded fields / txid / re-encoding differ from the independent encoder", "impl": i, "python": py_expected[t]})
     ctx.count("python-third-voice", len(py_expected))
+    for t, l, i in zip(texts, lines, impl):
+        if t in must_refuse and i.startswith("OK"):
+            ctx.violation(l, {"why": "a transaction text with a dangling hex digit / trailing junk behind a complete encoding was accepted", "impl": i, "text_tail": t[-12:]})
     # amounts
     am = ["0", "1", "-1", "0.1", "1.5", "0.00000001", "0.000000001", "21000000", "20999999.9769", "1.", ".5", "00", "01", "1e8", "1e-8", "1E+2",
           " 1", "1 ", "+1", "--1", "-0", "-0.0", "0.0", "92233720368.54775807", "92233720368.54775808", "9999999999.99999999", "10000000000",
@@ -192,6 +199,7 @@ def run(ctx):
     for h in docs[:6] + [ser_tx(t).hex() for t in gen[:30]]:
         for pre in ("", "0.1:", "0.1,0.002:", "1,2,3,4,5,6,7,8,9:", "abc:", "1.5", ":", "1:", ",:", "0.123456789:"):
             xs.append(pre + h)
+        xs.append(h + "0"); xs.append("0.1:" + h + "f"); xs.append(h + "0 ")
     xlines = ["TXARG " + x.encode().hex() for x in xs]
     impl = ctx.harness_sharded(xlines)
     model = ctx.driver_sharded(xlines, "model")
